@@ -436,6 +436,22 @@ func genManyStrings(name string, count, each int) string {
 	return b.String()
 }
 
+// genBranchyStrings: the same literals spread over many basic blocks, a few per block: no
+// single block exceeds the per-function budget, the function as a whole does many times over.
+func genBranchyStrings(name string, blocks, perBlock, each int) string {
+	var b strings.Builder
+	fmt.Fprintf(&b, "func %s(x int) int {\n\tt := 0\n", name)
+	for i := 0; i < blocks; i++ {
+		fmt.Fprintf(&b, "\tif x > %d {\n", i)
+		for j := 0; j < perBlock; j++ {
+			fmt.Fprintf(&b, "\t\tt += use(\"%05d:%s\")\n", i*perBlock+j, strings.Repeat(string(rune('a'+(i+j)%26)), each-6))
+		}
+		b.WriteString("\t}\n")
+	}
+	b.WriteString("\treturn t\n}\n\n")
+	return b.String()
+}
+
 const stringPrelude = "func use(s string) int { return len(s) }\n\n"
 
 // genSizedFile: a compilable file of exactly `size` bytes (padding is a comment).
